@@ -39,8 +39,13 @@ def programs(draw, opts=None):
     prog = {"pkg": M.PKG, "mods": [f"m{i}" for i in range(nmods)], "vars": [], "funcs": [], "classes": [],
             "ext": {"ev": 1, "ver": 0, "pad": 0}, "layout": {}}
     vpool = _var_pool(opts)
-    for vi in range(draw(st.integers(0, 4))):
-        prog["vars"].append({"name": f"V{vi}", "mod": draw(st.integers(0, nmods - 1)), "val": enc(draw(st.sampled_from(vpool)))})
+    for vi in range(draw(st.integers(0, 5))):
+        # names are unique per module only: the same global name in two modules is a case of its own
+        vm = draw(st.integers(0, nmods - 1))
+        free = [n for n in ("VA", "VB", "VC") if not any(v["mod"] == vm and v["name"] == n for v in prog["vars"])]
+        if not free:
+            continue
+        prog["vars"].append({"name": draw(st.sampled_from(free)), "mod": vm, "val": enc(draw(st.sampled_from(vpool)))})
     unique = set()       # functions that may be referenced at most once
     referenced = set()
     npath = [0]
@@ -159,6 +164,8 @@ def programs(draw, opts=None):
                 p[0] = ["x", "y"][pi]
         f = {"name": f"f{i}", "mod": mod, "params": params, "ver": 0, "pad": 0,
              "data": new_path() if data else None, "body": []}
+        if opts.get("rets"):
+            f["ret"] = draw(st.sampled_from(["tuple", "tuple", "text", "bytes"]))
         prog["funcs"].append(f)
         body, is_unique = gen_body(i, mod, [p for p, _ in params])
         f["body"] = body
